@@ -109,20 +109,30 @@ def gen_case(rng, keys=None, max_world: int = 3, adversarial_leaf: bool = True) 
     import sim
     W = rng.choice([1, 1, 2, 3][: max_world + 1])
     replicated = rng.choice([[], [], ["**"], ["s/**"], ["*/a", "s/b*"]]) if W > 1 else rng.choice([[], ["**"]])
+    # A path matched by a replication glob on every rank must hold the same value on every rank (that is what
+    # "replicated" means; different values - or a tensor on one rank and a primitive on another - are a caller error,
+    # not a legal state).  So: no glob -> independent states; "s/**" -> the app key "s" is shared and the other app keys
+    # are per rank; globs that can match anywhere ("**", "*/a") -> every rank holds the same state.
+    def one_tree():
+        tree = gen.rand_tree_desc(rng, 3, keys=keys, tensors=0.7, max_elems=20)
+        if tree["t"] not in ("dict", "odict"):
+            tree = {"t": rng.choice(["dict", "odict"]), "items": [[gen.key_desc(rng.choice(keys or gen.SAFE_KEYS)), tree]]}
+        return tree
     states = []
-    shared = None
-    for r in range(W):
-        if replicated and shared is not None and rng.random() < 0.6:
-            states.append(shared)
-            continue
-        st = []
-        for ak in rng.sample(["s", "t", "u/v", "%x"], rng.randint(1, 2)):
-            tree = gen.rand_tree_desc(rng, 3, keys=keys, tensors=0.7, max_elems=20)
-            if tree["t"] not in ("dict", "odict"):
-                tree = {"t": rng.choice(["dict", "odict"]), "items": [[gen.key_desc(rng.choice(keys or gen.SAFE_KEYS)), tree]]}
-            st.append([gen.key_desc(ak), tree])
-        states.append(st)
-        shared = st
+    if not replicated:
+        for r in range(W):
+            states.append([[gen.key_desc(ak), one_tree()] for ak in rng.sample(["s", "t", "u/v", "%x"], rng.randint(1, 2))])
+    elif replicated == ["s/**"]:
+        s_tree = one_tree()
+        for r in range(W):
+            st = [[gen.key_desc("s"), s_tree]]
+            for ak in rng.sample(["t", "u/v", "%x"], rng.randint(0, 1)):
+                st.append([gen.key_desc(ak), one_tree()])
+            rng.shuffle(st)
+            states.append(st)
+    else:
+        st = [[gen.key_desc(ak), one_tree()] for ak in rng.sample(["s", "t", "u/v", "%x"], rng.randint(1, 2))]
+        states = [st for _ in range(W)]
     return {"world": W, "states": states, "replicated": replicated,
             "take_knobs": sim.rand_knobs(rng), "restore_knobs": sim.rand_knobs(rng),
             "mode": rng.choice(["fresh", "inplace", "inplace", "wrong"]),
